@@ -38,9 +38,10 @@ META = dict(
     functions=['thermocouples.Thermocouple.celsius_to_mv', 'thermocouples.Thermocouple.mv_to_celsius',
                'thermocouples.Polynomial.apply', 'thermocouples.Range.within_range', 'scaling.ThermocoupleScaling.scale',
                'scaling.ThermocoupleScaling.from_properties'],
-    bounds=dict(quick='all 8 types, every forward and inverse piece; reals (unbounded for totality, reference ranges otherwise); type K inverse '
-                      'tolerance between 0 and 450 C only on [0,10] and [120,130]',
-                thorough='same, type K inverse tolerance on all of [0,1372]'),
+    bounds=dict(quick='all 8 types, every forward and inverse piece; reals (unbounded for totality, reference ranges otherwise); the '
+                      'inverse tolerance of type K above 0 C is NOT decided in this tier',
+                thorough='same plus type K inverse tolerance on [450,1372] and on six 10-degree windows below 450 C (1-degree exp '
+                         'enclosures; the remaining windows are outside: 20-60 s per obligation)'),
     outside=['float64 rounding of polynomial evaluation', 'NaN/inf inputs', 'the >= 1e5-point float grid of the quantifier'],
     stubs=['np.exp on a symbolic real: uninterpreted function (identity) / rational enclosure per sub-interval (type K)',
            'NumPy object arrays carry z3 reals through np.piecewise and polyval (Python-level code)'],
@@ -82,8 +83,9 @@ def tasks(tier, seed):
                 # exp enclosures: 1-degree sub-intervals below 450 C (the Gaussian term matters there), coarser above.
                 # Each 1-degree obligation costs seconds: the quick tier decides two 10-degree windows (at 0 C and
                 # around the centre of the Gaussian term) plus everything above 450 C; the thorough tier all of it.
-                lows = list(range(int(a), 450, 10)) if tier == 'thorough' else [0, 120]
-                for x in lows:
+                if tier != 'thorough':
+                    continue            # 20-60 s per obligation (degree 81, huge rationals): thorough tier only
+                for x in [0, 60, 120, 190, 300, 440]:
                     if x < b:
                         ts.append(dict(kind='inverse', type=t, lo=x, hi=min(x + 10, b), nsub=10))
                 edges = [x for x in range(450, int(b), 240)] + [b]
@@ -265,7 +267,9 @@ def run_task(task):
         T = z3.Real('T')
         ctx.inputs['T'] = T
         ctx.add(z3.And(T >= _fx(lo), T <= _fx(hi)))
-        has_exp = any(row[3] is not None and row[0] <= hi and row[1] >= lo for row in tab)
+        has_exp = any(row[3] is not None and row[0] < hi and row[1] > lo for row in tab)
+        if any(row[3] is not None and row[0] == hi for row in tab):
+            ctx.add(T < _fx(hi))        # the boundary point itself belongs to the piece with the exponential term
         if not has_exp:
             v = tc.celsius_to_mv(rarr([T]))[0]
             if not isinstance(v, SymReal):
